@@ -3,6 +3,6 @@
 set -u
 p=$1; m=$2; shift 2
 out=$(/verif/fixtry.sh "$p" "$@" 2>&1); echo "$out" | grep -v '^KNOWN' | cut -c1-220
-if echo "$out" | grep -qE '^(VIOLATION|MACHINERY|PATCH FAILED|BUILD FAILED)|FAIL'; then echo "NOT COMMITTED: $p"; exit 1; fi
+if echo "$out" | grep -qE '^(VIOLATION|MACHINERY|PATCH FAILED|BUILD FAILED)|FAIL'; then git -C /repo checkout -f -- .; echo "NOT COMMITTED (reverted): $p"; exit 1; fi
 for c in "$@"; do echo "$out" | grep -q "^$c quick" || { echo "NOT COMMITTED (check $c did not finish): $p"; exit 1; }; done
 cd /repo && git commit -qaF "$m" && h=$(git rev-parse --short HEAD) && cd /verif && ./markfixed.py "$p" $h
